@@ -44,6 +44,9 @@ func (x *Exec) newCEnv(st *State) *CEnv {
 	if x.hasCfg {
 		ce.vars[x.cfgVar] = scalarVal(IntLit(int64(x.cfgVal)), types.Typ[types.Int])
 	}
+	for k, v := range x.splitVals {
+		ce.vars[k] = scalarVal(IntLit(int64(v)), types.Typ[types.Int])
+	}
 	return ce
 }
 
